@@ -199,6 +199,20 @@ func genC14(t *rapid.T) c14Case {
 			c.Queries = append(c.Queries, Q{URL: "http://ads.example/x.js", Src: "http://page.example/" + pick(t, "page", []string{"checkout", "other", "cart", "checkout", "other"}), Typ: "script"})
 		}
 	}
+	hasClients := false
+	for _, l := range lists {
+		if strings.Contains(l.Text, "||clients.example^$client=") {
+			hasClients = true
+		}
+	}
+	if hasClients && chance(t, "named-clients-first", 2) {
+		// the very first lookups of the rule with many client names happen at the same time
+		var first []Q
+		for i := rapid.IntRange(16, 64).Draw(t, "nnamed-first"); i > 0; i-- {
+			first = append(first, Q{Host: true, Hostname: "clients.example", CName: fmt.Sprintf("dev%02d", rapid.IntRange(0, 45).Draw(t, "devno")), CIP: "10.0.0.7"})
+		}
+		c.Queries = append(first, c.Queries...)
+	}
 	n := len(c.Queries) + rapid.IntRange(50, scale(200, 400)).Draw(t, "nqueries")
 	for len(c.Queries) < n {
 		if len(c.Queries) > 0 && chance(t, "dup", 2) {
